@@ -201,6 +201,39 @@ def fetch_fn(pagesize, fsz=7, adjacent=False):
     return fn
 
 
+def pieces_fn():
+    """an image loaded piecewise (consecutive HEX / S-record data records, adjacent sections): two raw pieces written
+    back to back at a symbolic address; the fetch window that read_instruction uses (mmap.read(addr, maxlen)[0]) must
+    hold every byte the file places from addr on, also when the instruction straddles the two pieces"""
+    code = bytes.fromhex("9090b844332211c39090")
+
+    def fn(E):
+        from amoco.system.memory import MemoryMap
+        import amoco.arch.x64.cpu_x64 as cpu
+        a = E.sym("a", 12)
+        split = E.sym("split", 3)
+        k = split.realize("index") if isinstance(split, symx.SInt) else split
+        E.assume(1 <= k <= 7)
+        mm = MemoryMap()
+        order = E.sym("order", 1)
+        first_low = (order.realize("index") if isinstance(order, symx.SInt) else order) == 0
+        if first_low:
+            mm.write(a, code[:k])
+            mm.write(a + k, code[k:])
+        else:
+            mm.write(a + k, code[k:])
+            mm.write(a, code[:k])
+        for o in (0, 2, 7):
+            parts = mm.read(a + o, 15)
+            E.prove(len(parts) >= 1 and isinstance(parts[0], (bytes, symx.SBytes)), "fetch window at +%d does not start with bytes" % o)
+            if parts and isinstance(parts[0], (bytes, symx.SBytes)):
+                got = bytes(parts[0]) if isinstance(parts[0], bytes) else None
+                E.prove(got is not None and got == code[o:], "fetch window at +%d (pieces split at %d, %s piece written first) holds %s, the file places %s there"
+                        % (o, k, "low" if first_low else "high", None if got is None else got.hex(), code[o:].hex()))
+        return "ok"
+    return fn
+
+
 def raw_fn(n):
     def fn(E):
         bs = E.sym_bytes("d", n)
@@ -255,6 +288,7 @@ def items(tier, seed):
     out.append(("fetch", 4096, 3, tier))
     out.append(("fetch", 16, 2, "adjacent", tier))
     out.append(("raw", 12, tier))
+    out.append(("pieces", 0, tier))
     return out
 
 
@@ -268,6 +302,9 @@ def run_item(item):
     elif kind == "fetch":
         fn = fetch_fn(item[1], item[2] if len(item) > 3 else 7, adjacent=(len(item) > 4))
         label = "fetch:page%d" % item[1]
+    elif kind == "pieces":
+        fn = pieces_fn()
+        label = "adjacent-raw-pieces"
     else:
         fn = raw_fn(item[1])
         label = "raw:%d" % item[1]
@@ -318,7 +355,7 @@ def run_item(item):
 def replay(rep):
     item = rep["item"]
     kind = item[0]
-    fn = image_fn(item[1], item[2], item[3]) if kind == "image" else (fetch_fn(item[1], item[2] if len(item) > 3 else 7, adjacent=(len(item) > 4)) if kind == "fetch" else raw_fn(item[1]))
+    fn = image_fn(item[1], item[2], item[3]) if kind == "image" else (fetch_fn(item[1], item[2] if len(item) > 3 else 7, adjacent=(len(item) > 4)) if kind == "fetch" else (pieces_fn() if kind == "pieces" else raw_fn(item[1])))
     E = symx.Engine()
     E.concrete = rep["vals"]
     symx.Engine.cur = E
